@@ -297,8 +297,13 @@ class Application(object):
                 norm_path = normalize_path(url_path, route.is_branch)
                 if norm_path != url_path:
                     if route.slash_mode == S_REDIRECT:
+                        # QUERY_STRING may be absent; it stands for the raw
+                        # bytes sent (latin-1), which need not be UTF-8
+                        query = request.environ.get('QUERY_STRING', '')
+                        query = ''.join([c if ord(c) < 0x80 else '%%%02X' % ord(c)
+                                         for c in query])
                         parts = [request.url_root.rstrip('/'),
-                                 norm_path, '?', request.query_string.decode('utf8')]
+                                 norm_path, '?', query]
                         # no control characters in the Location header
                         location = quote_ctl_chars(''.join(parts))
                         return redirect(location)  # TODO: error_handler
